@@ -32,14 +32,17 @@ pub fn generate(run_seed: u64, index: u64, _tier: Tier) -> Case {
     let policy = policies[((index / 6) % 2) as usize];
     let limit = *rng.pick(&[1u64, 2, 3]);
     let item = *rng.pick(&["1KiB", "2KiB", "64KiB", "1MiB"]);
+    // a memory limit below the item size limit must not change what is accepted
+    // (it only matters to the random eviction policy, which never refuses a store)
+    let memory = *rng.pick(&["1GiB", "64MiB", "16KiB", "512B"]);
     let port = 12000 + (index % 20000);
     let ttl_probe = index % 8 == 7;
     Case {
         kind: "startup".into(),
         data: json!({
             "args": ["memcrsd", "--port", port.to_string(), "--connection-limit", limit.to_string(), "--threads", th.to_string(),
-                     "--runtime-type", runtime, "--eviction-policy", policy, "--item-size-limit", item, "--memory-limit", "1GiB"],
-            "port": port, "threads": th, "runtime": runtime, "limit": limit, "item": item, "policy": policy, "ttl_probe": ttl_probe,
+                     "--runtime-type", runtime, "--eviction-policy", policy, "--item-size-limit", item, "--memory-limit", memory],
+            "port": port, "threads": th, "runtime": runtime, "limit": limit, "item": item, "policy": policy, "memory": memory, "ttl_probe": ttl_probe,
         }),
     }
 }
